@@ -282,8 +282,8 @@ fn check_norm<T>(acc: &mut Acc, what: &str, tname: &str, got: &[f64], x: &Mats<T
         let t = Tr::exact(x.jets[i][0].clone(), b);
         s = s.add(&t.mul(&t, b));
     }
-    if s.re() < 1e-3 {
-        return;
+    if s.re() == 0.0 {
+        return; // the zero vector: the norm is not differentiable there
     }
     let m = s.func(ndv_core::Func::Sqrt, b);
     let (want, mag) = m.slots(b);
@@ -346,7 +346,10 @@ fn check_eigen(acc: &mut Acc, what: &str, base_sig: String, lag_sig: &str, band:
         // attribution to the listed finding: real part at rounding level, and the derivative parts
         // within the band of their order (the lag grows with the order, see DESIGN.md 7.3)
         let real_ok = res.iter().all(|(_, r)| r.c[0].abs() <= tol * u * mm.c[0] + 1e-300);
-        let in_band = real_ok && worst.iter().enumerate().skip(1).all(|(d, w)| *w <= band_for(band, d));
+        // sizes 7..12 lie outside the property's quantifier (1..6); they are run because size-dependent
+        // code paths change there, but the third-order parts of the unchanged Jacobi routine are not
+        // converged at all at n = 12 (relative residual ~1): the lag finding is not banded there
+        let in_band = real_ok && worst.iter().enumerate().skip(1).all(|(d, w)| *w <= if n > 6 && d >= 3 { f64::INFINITY } else { band_for(band, d) });
         let sig = if in_band { lag_sig.to_string() } else { format!("{}:deg{}", base_sig, b.deg[c]) };
         acc.violate(sig, format!("{} (n={}): {} part {}: residual {:e}, rounding-level allowance {:e}; worst relative residual per order {:?}", what, n, nm, b.mono_name(c), rv, al, worst), ecase());
     }
@@ -401,10 +404,18 @@ fn check_crate<T: Jetty<F = f64> + Copy>(tname: &str, ctx: &Ctx, shard: usize, n
             continue;
         }
         let mut rng = Rng::stream(ctx.seed, 1200 + tindex, ci);
-        let n = 1 + rng.below(6);
+        // sizes 1..6, and one case in eight beyond (7..12): blocked / unrolled variants change there
+        let n = if ci % 8 >= 6 { 7 + rng.below(6) } else { 1 + rng.below(6) };
         let kappa = *rng.choose(&[1.0, 3.0, 10.0, 100.0]);
         let order = *rng.choose(&[RowOrder::AsIs, RowOrder::Random, RowOrder::Reversed, RowOrder::Cyclic, RowOrder::LargestLast]);
-        let mut re = conditioned(&mut rng, n, kappa);
+        // one case in six: a structurally sparse real part (upper triangular, unit-scale diagonal,
+        // small couplings -> kappa of a few) whose derivative parts are dense
+        let triangular = ci % 6 == 4 && n >= 2;
+        let mut re: Vec<Vec<f64>> = if triangular {
+            (0..n).map(|i| (0..n).map(|j| if j < i { 0.0 } else if j == i { rng.sign() * rng.range(1.0, 2.0) } else { rng.range(-0.3, 0.3) }).collect()).collect()
+        } else {
+            conditioned(&mut rng, n, kappa)
+        };
         reorder(&mut rng, &mut re, order);
         // exact power-of-two scaling: conditioning is unchanged, absolute magnitudes are not
         let scale = (2.0f64).powi(*rng.choose(&[0, 0, 0, -70, -30, 30, 60]));
@@ -422,7 +433,7 @@ fn check_crate<T: Jetty<F = f64> + Copy>(tname: &str, ctx: &Ctx, shard: usize, n
         let arr = with_layout(n, layout, |i, j| a.vals[i][j]);
         let bvec = Array1::from_shape_fn(n, |i| rhs.vals[i][0]);
         let case = || json!({"type": tname, "n": n, "kappa": kappa, "scale": scale, "row_order": format!("{:?}", order), "A_parts": a.vals.iter().map(|r| r.iter().map(|x| floats(&parts(x, &shape))).collect::<Vec<_>>()).collect::<Vec<_>>(), "b_parts": rhs.vals.iter().map(|r| floats(&parts(&r[0], &shape))).collect::<Vec<_>>()});
-        let class = format!("LU|{}|n{}|{}{}|swaps-{}|{}", tname, n, format!("{:?}", order), if scale != 1.0 { "-scaled" } else { "" }, if swaps % 2 == 0 { "even" } else { "odd" }, ["row-major", "column-major", "non-contiguous"][layout as usize]);
+        let class = format!("LU|{}|n{}|{}{}{}|swaps-{}|{}", tname, if n > 6 { "7-12".to_string() } else { n.to_string() }, format!("{:?}", order), if scale != 1.0 { "-scaled" } else { "" }, if triangular { "-triangular-real-part" } else { "" }, if swaps % 2 == 0 { "even" } else { "odd" }, ["row-major", "column-major", "non-contiguous"][layout as usize]);
         acc.observe(&class, n >= 2 && swaps >= 1);
         acc.count(&format!("pivot_sequence[{}:{:?}]", n, seq), 1);
         let lu = match guarded(|| LU::new(arr.clone())) {
@@ -494,6 +505,32 @@ fn check_crate<T: Jetty<F = f64> + Copy>(tname: &str, ctx: &Ctx, shard: usize, n
             acc.observe(&format!("norm|{}", tname), true);
             check_norm(&mut acc, "norm", tname, &parts(&nr, &shape), &rhs, n, &b, u, &case);
         }
+        // hostile vectors: everything scaled by an exact power of two far below / above one, and a
+        // component whose real part is exactly zero while its derivative parts are not
+        {
+            let variant = ci % 4;
+            let sc = match variant { 0 => (2.0f64).powi(-80), 1 => (2.0f64).powi(60), _ => 1.0 };
+            let mut hv: Mats<T> = make_vector(&mut rng, n, &b, &shape);
+            let zero_at = if variant >= 2 && n >= 2 { Some(rng.below(n)) } else { None };
+            for i in 0..n {
+                let mut sl = parts(&hv.vals[i][0], &shape);
+                for v in sl.iter_mut() {
+                    *v *= sc;
+                }
+                if zero_at == Some(i) {
+                    sl[0] = 0.0;
+                }
+                hv.vals[i][0] = build_all::<T>(&shape, &sl);
+                hv.jets[i][0] = Jet::from_slots(&b, &sl);
+            }
+            let hvec = Array1::from_shape_fn(n, |i| hv.vals[i][0]);
+            let kind = ["scaled-2^-80", "scaled-2^60", "zero-real-component", "zero-real-component"][variant as usize];
+            let hcase = || json!({"type": tname, "n": n, "kind": kind, "x_parts": hv.vals.iter().map(|r| floats(&parts(&r[0], &shape))).collect::<Vec<_>>()});
+            if let Ok(nr) = guarded(|| norm(&hvec)) {
+                acc.observe(&format!("norm|{}|{}", tname, kind), true);
+                check_norm(&mut acc, &format!("norm[{}]", kind), tname, &parts(&nr, &shape), &hv, n, &b, u, &hcase);
+            }
+        }
         // ---- singular class: an all-zero real column (derivative parts non-zero)
         if ci % 5 == 0 && n >= 2 {
             let col = rng.below(n);
@@ -534,17 +571,28 @@ fn check_crate<T: Jetty<F = f64> + Copy>(tname: &str, ctx: &Ctx, shard: usize, n
                 sparse_symmetric(&mut rng, n)
             } else if ci % 6 == 4 && n >= 2 {
                 equal_diagonal(&mut rng, n)
+            } else if ci % 12 == 6 && n >= 2 {
+                // distinct diagonal, one common coupling: every off-diagonal entry has the same size
+                let c = rng.sign() * rng.range(0.05, 0.3);
+                let mut d = rng.range(-3.0, -1.0);
+                let mut a = vec![vec![c; n]; n];
+                for i in 0..n {
+                    a[i][i] = d;
+                    d += rng.range(0.5, 1.0);
+                }
+                a
             } else {
                 symmetric(&mut rng, n)
             };
             let sparse = !hostile && ci % 6 == 2 && n >= 3;
             let eqdiag = !hostile && ci % 6 == 4 && n >= 2;
+            let uniform = !hostile && ci % 12 == 6 && n >= 2;
             let escale = (2.0f64).powi(*rng.choose(&[0, 0, 0, -60, 40]));
             let sre: Vec<Vec<f64>> = sre.iter().map(|r| r.iter().map(|v| v * escale).collect()).collect();
             let s: Mats<T> = make_matrix(&mut rng, &sre, &b, &shape, true, 0.5 * escale);
             let sarr = with_layout(n, (ci / 2) % 3, |i, j| s.vals[i][j]);
             let ecase = || json!({"type": tname, "n": n, "hostile_reducible_real_part": hostile, "A_parts": s.vals.iter().map(|r| r.iter().map(|x| floats(&parts(x, &shape))).collect::<Vec<_>>()).collect::<Vec<_>>()});
-            acc.observe(&format!("jacobi|{}|n{}|{}{}", tname, n, if hostile { "reducible-real-part" } else if sparse { "irreducible-with-zero-entries" } else if eqdiag { "equal-diagonal-tridiagonal" } else { "dense" }, if escale != 1.0 { "-scaled" } else { "" }), n >= 2);
+            acc.observe(&format!("jacobi|{}|n{}|{}{}", tname, n, if hostile { "reducible-real-part" } else if sparse { "irreducible-with-zero-entries" } else if eqdiag { "equal-diagonal-tridiagonal" } else if uniform { "uniform-coupling" } else { "dense" }, if escale != 1.0 { "-scaled" } else { "" }), n >= 2);
             match guarded(|| jacobi_eigenvalue(sarr.clone(), 200)) {
                 Ok((lam, v)) => {
                     let lj: Option<Vec<J>> = lam.iter().map(|x| to_jet(x, &b, &shape)).collect();
@@ -594,7 +642,8 @@ fn check_nalgebra<T: Jetty<F = f64> + RealField>(tname: &str, ctx: &Ctx, shard: 
         let shape = T::shape((1 + rng.below(3), 1));
         let b = Basis::new(&shape);
         let maxdeg = b.max_deg;
-        let n = 1 + rng.below(6);
+        // sizes 1..6, and one case in eight beyond (7..12): blocked / unrolled variants change there
+        let n = if ci % 8 >= 6 { 7 + rng.below(6) } else { 1 + rng.below(6) };
         let kappa = *rng.choose(&[1.0, 3.0, 10.0, 100.0]);
         let order = *rng.choose(&[RowOrder::AsIs, RowOrder::Random, RowOrder::Reversed, RowOrder::Cyclic, RowOrder::LargestLast]);
         let mut re = conditioned(&mut rng, n, kappa);
